@@ -4,6 +4,7 @@ CONSTANTS
   PoolIds = {"1"}
   Creator = "u1"
   MaxLen = 3
+  Alphabet = "ledger"
   Emit = TRUE
 INVARIANTS EmitSchedule
 CHECK_DEADLOCK FALSE
